@@ -89,6 +89,30 @@ def _sha256_json(obj: Any) -> str:
     ).hexdigest()
 
 
+def _stable_repr(value: Any) -> str:
+    """``repr`` that is the same in every interpreter run and for every key order.
+
+    The text of a set follows the hash order of its members (different under another
+    ``PYTHONHASHSEED``) and the text of a mapping its insertion order; both are
+    written in sorted order here so that identifiers derived from the text are
+    functions of the value.
+    """
+    if isinstance(value, (set, frozenset)):
+        return (
+            type(value).__name__
+            + "({"
+            + ", ".join(sorted(_stable_repr(v) for v in value))
+            + "})"
+        )
+    if isinstance(value, dict):
+        items = sorted((_stable_repr(k), _stable_repr(v)) for k, v in value.items())
+        return "{" + ", ".join(f"{k}: {v}" for k, v in items) + "}"
+    if isinstance(value, (list, tuple)):
+        inner = ", ".join(_stable_repr(v) for v in value)
+        return f"[{inner}]" if isinstance(value, list) else f"({inner},)"
+    return repr(value)
+
+
 def variable_domain_signature(spec: Any) -> Dict[str, Any]:
     """Summarise sweep variable domains without materialising unbounded data."""
 
@@ -112,14 +136,16 @@ def variable_domain_signature(spec: Any) -> Dict[str, Any]:
                 json.dumps(v)
                 return v
             except (TypeError, ValueError):
-                return repr(v)
+                return _stable_repr(v)
 
         head = [_json_safe(v) for v in values[:3]]
         tail = [_json_safe(v) for v in values[-3:]]
         try:
             digest = _sha256_json(values)
         except TypeError:
-            digest = hashlib.sha256(repr(values).encode("utf-8")).hexdigest()
+            digest = hashlib.sha256(
+                _stable_repr(values).encode("utf-8")
+            ).hexdigest()
         return {
             "kind": "sequence",
             "count": len(values),
